@@ -41,6 +41,9 @@ class Ctx:
         for f in self.known.get('findings', []):
             if f.get('property') == prop:
                 self.known_idx.setdefault(f.get('signature'), f)
+        for old, news in common.load_narrow(prop).items():
+            if old in self.known_idx and 'narrow' not in self.known_idx[old]:
+                self.known_idx[old] = dict(self.known_idx[old], narrow=list(news))
         self.sets = common.load_sets(prop)
         self.set_of_key = {}   # key -> [signatures whose failing set lists it]
         for sig, st in self.sets.items():
@@ -205,6 +208,28 @@ def run_check(mod, ctx, t0):
         for r in required:
             if r not in have:
                 proof_problems.append({'what': 'missing theorem', 'detail': r})
+        # every public theorem of the Props modules is required BY FULL NAME (harness/required/<Cxx>.txt, generated once
+        # from the compiled modules by harness/mkrequired.py and committed): a deleted or renamed theorem is noticed.
+        # Names in the module's OPTIONAL_THEOREMS (full `Module:Name`, full name, or last component) may be absent.
+        listed = common.load_required(prop)
+        if listed is None:
+            ctx.notes.append('no harness/required/%s.txt: only REQUIRED_THEOREMS (last name component) is enforced' % prop)
+        else:
+            optional = set(getattr(mod, 'OPTIONAL_THEOREMS', []))
+
+            def is_optional(full):
+                name = full.split(':', 1)[1]
+                return full in optional or name in optional or name.split('.')[-1] in optional
+            public = {n for n in thms if not n.split(':', 1)[1].startswith('_private.')}
+            for r in listed:
+                if r not in thms and not is_optional(r):
+                    proof_problems.append({'what': 'missing theorem', 'detail': '%s (listed in harness/required/%s.txt: deleted or '
+                                           'renamed; if intended, regenerate the list with harness/mkrequired.py %s)' % (r, prop, prop)})
+            unlisted = sorted(public - set(listed))
+            ctx.extra['required_theorems'] = {'list': 'harness/required/%s.txt' % prop, 'listed': len(listed),
+                                              'present': sum(1 for r in listed if r in thms),
+                                              'public_theorems_not_in_the_list': unlisted[:60],
+                                              'public_theorems_not_in_the_list_count': len(unlisted)}
         # thorough tier: the independent re-checker replays the compiled declarations of the property modules
         if ctx.thorough and props_modules:
             with common.LakeLock():
